@@ -44,9 +44,12 @@ re_likebut = re.compile(r"""^(\s*[0-9]+)     # name
                              (.*)$           # options""",
                         re.IGNORECASE + re.VERBOSE)
 re_void = re.compile(r"""^(\s*[0-9]+)        # name
-                          (\s+\S+)           # zero material
+                          (\s+[^\s(#]+)       # zero material
                           (.*)$              # geometry""",
                      re.IGNORECASE + re.VERBOSE)
+# the second entry of the card (`like` or the material number); the geometry
+# may follow it without a blank if it starts with a parenthesis or a `#`
+re_second = re.compile(r'^\s*\S+\s+([^\s(#]+)')
 re_nonvoid = re.compile(r"""^(\s*[0-9]+)        # name
                              (\s+\S+\s+[^\s(]+) # material and density
                              (.*)$              # geometry""",
@@ -60,7 +63,7 @@ def split(txt):
     String `txt` must have no comments and new-line characters.
     """
     # Extract name
-    name, t2, _ = txt.split(None, 2)
+    t2 = re_second.match(txt).group(1)
     if t2.lower() == 'like':
         name, geom, opts = re_likebut.findall(txt)[0]
         mat = ''
